@@ -1,5 +1,145 @@
-import Solvor.Graph.Model
-/-! Graph: property theorems only (helper lemmas live in Lemmas.lean). -/
+import Solvor.Graph.KahnLemmas
+import Solvor.Graph.CondLemmas
+/-!
+Graph: the property theorems of C14 (helper lemmas are in `Lemmas.lean`, `KahnLemmas.lean`,
+`CondLemmas.lean`; the specifications are in `Spec.lean`).
+
+* `Reach adj u v` – a walk from `u` to `v`; `Mutual` – walks both ways; `OnCycle adj v` – a
+  non-empty closed walk through `v` (self loops count).
+* `IsSccDecomp V adj comps` – the first clause of C14: `comps` partitions `V`, two vertices share a
+  class **iff** they are mutually reachable, and no edge goes from an earlier class to a later one.
+* `IsTopoOrder nodes adj order` / `Cyclic nodes adj` – the second clause.
+* `IsCondensation V adj comps cadj` – the third clause.
+-/
 namespace Solvor.Graph
+
+/-! ### T-spec: the SCC certificate -/
+
+/-- **scc_cert** [C]: a partition of `V` into non-empty strongly connected sets, listed so that no
+edge goes from an earlier to a later class (in a graph closed under `adj`), *is* the set of
+mutual-reachability classes, sinks first. -/
+theorem scc_cert {V : List Nat} {adj : Adj} {comps : List (List Nat)} (C : SccCert V adj comps) :
+    IsSccDecomp V adj comps := C.isSccDecomp
+
+/-- the Boolean checker evaluated by the driver on the implementation's output decides the
+property's clause exactly (sound and complete) -/
+theorem chkScc_iff {V : List Nat} {adj : Adj} {comps : List (List Nat)} :
+    chkScc V adj comps = true ↔ Closed V adj ∧ IsSccDecomp V adj comps :=
+  ⟨fun h => ⟨(chkScc_iff_cert.1 h).closed, scc_cert (chkScc_iff_cert.1 h)⟩,
+   fun h => chkScc_iff_cert.2 (h.2.cert h.1)⟩
+
+/-- the verified reachability function behind `chkScc`, `cyclicB` -/
+theorem reach_correct {adj : Adj} {U src : List Nat} (hc : Closed U adj) (hs : src ⊆ U) (x : Nat) :
+    x ∈ reach adj U src ↔ ∃ s ∈ src, Reach adj s x := mem_reach_iff hc hs
+
+/-- two accepted decompositions have the same classes -/
+theorem scc_decomp_unique {V : List Nat} {adj : Adj} {c₁ c₂ : List (List Nat)}
+    (h₁ : chkScc V adj c₁ = true) (h₂ : chkScc V adj c₂ = true) :
+    ∀ u ∈ V, ∀ v ∈ V, (∃ c ∈ c₁, u ∈ c ∧ v ∈ c) ↔ (∃ c ∈ c₂, u ∈ c ∧ v ∈ c) := by
+  intro u hu v hv
+  rw [(chkScc_iff.1 h₁).2.classes u hu v hv, (chkScc_iff.1 h₂).2.classes u hu v hv]
+
+/-- example graph: 0 → 1 → 2 → 0, 2 → 3, 3 → 3 -/
+def exAdj : Adj := fun v => match v with
+  | 0 => [1] | 1 => [2] | 2 => [0, 3] | 3 => [3] | _ => []
+
+-- non-vacuity: the certificate is met by the two-class decomposition of a 4-vertex graph with a
+-- 3-cycle, and refused for a wrong order and for a wrong split
+example : chkScc [0, 1, 2, 3] exAdj [[3], [2, 1, 0]] = true := by decide
+example : chkScc [0, 1, 2, 3] exAdj [[2, 1, 0], [3]] = false := by decide
+example : chkScc [0, 1, 2, 3] exAdj [[3], [2, 1], [0]] = false := by decide
+example : SccCert [0, 1, 2, 3] exAdj [[3], [2, 1, 0]] := chkScc_iff_cert.1 (by decide)
+
+/-! ### T-model: Kahn's algorithm (`topological_sort`), for every input -/
+
+/-- **kahn_correct** [C]: for every duplicate-free node list and every neighbour function, the mirror
+of `topological_sort` returns an order only if it is a permutation of the nodes with every edge
+(between nodes) pointing forward, and reports INFEASIBLE exactly when the graph induced on the node
+list has a cycle (so: acyclic ⇒ an order is returned, and a returned order ⇒ acyclic). -/
+theorem kahn_correct (nodes : List Nat) (adj : Adj) (hn : nodes.Nodup) :
+    (∀ order, kahn nodes adj = some order → IsTopoOrder nodes adj order) ∧
+    (kahn nodes adj = none ↔ Cyclic nodes adj) := by
+  obtain ⟨deg', I⟩ := kahnLoop_inv hn nodes.length _ _ _ (KInv.init (adj := adj) hn) (by simp)
+  have hsome : ∀ order, kahn nodes adj = some order → IsTopoOrder nodes adj order := by
+    intro order h
+    unfold kahn at h
+    simp only at h
+    split at h
+    · rename_i hl
+      cases h
+      exact I.final_topo hn hl
+    · cases h
+  refine ⟨hsome, ?_, ?_⟩
+  · intro h
+    unfold kahn at h
+    simp only at h
+    split at h
+    · cases h
+    · rename_i hl
+      exact I.final_cyclic hn hl
+  · intro hc
+    cases h : kahn nodes adj with
+    | none => rfl
+    | some order => exact absurd hc (hsome order h).acyclic
+
+/-- stuck-set form of the INFEASIBLE clause: a non-empty finite set in which every member has a
+predecessor contains a cycle -/
+theorem stuck_set_has_cycle {adj : Adj} {S : List Nat} (hne : S ≠ [])
+    (hp : ∀ x ∈ S, ∃ p ∈ S, x ∈ adj p) : ∃ v ∈ S, OnCycle adj v := exists_cycle_of_pred_closed hne hp
+
+/-- T-spec: a topological order certifies acyclicity -/
+theorem topo_order_acyclic {nodes : List Nat} {adj : Adj} {order : List Nat}
+    (T : IsTopoOrder nodes adj order) : ¬ Cyclic nodes adj := T.acyclic
+
+/-- T-spec: the checkers evaluated on the implementation's answers decide the clause -/
+theorem chkTopo_correct {nodes : List Nat} {adj : Adj} (hn : nodes.Nodup) (order : List Nat) :
+    chkTopo nodes adj order = true ↔ IsTopoOrder nodes adj order := chkTopo_iff hn
+
+theorem cyclicB_correct (nodes : List Nat) (adj : Adj) : cyclicB nodes adj = true ↔ Cyclic nodes adj :=
+  cyclicB_iff
+
+-- non-vacuity: a DAG with a duplicate edge gets an order, the example graph above is refused
+example : kahn [2, 0, 1] (fun v => match v with | 0 => [1, 1] | 2 => [0] | _ => []) = some [2, 0, 1] := by decide
+example : kahn [0, 1, 2, 3] exAdj = none := by decide
+example : IsTopoOrder [2, 0, 1] (fun v => match v with | 0 => [1, 1] | 2 => [0] | _ => []) [2, 0, 1] :=
+  (kahn_correct _ _ (by decide)).1 _ (by decide)
+example : Cyclic [0, 1, 2, 3] exAdj := (kahn_correct _ _ (by decide)).2.1 (by decide)
+
+/-! ### Condensation -/
+
+/-- **condense_spec** [C]: in a condensation (classes = SCCs sinks first, class `i` lists class `j`
+iff `i ≠ j` and an original edge joins them) every listed edge goes to an earlier class; hence the
+condensed graph is acyclic. -/
+theorem condense_spec {V : List Nat} {adj : Adj} {comps cadj : List (List Nat)}
+    (D : IsCondensation V adj comps cadj) :
+    (∀ i j, i < comps.length → j ∈ cadjFn cadj i → j < i) ∧ ∀ i, ¬ OnCycle (cadjFn cadj) i :=
+  ⟨fun _ _ hi h => D.edge_down hi h, D.acyclic⟩
+
+/-- the Boolean checker evaluated on `condense`'s output decides the clause -/
+theorem chkCondense_correct {V : List Nat} {adj : Adj} {comps cadj : List (List Nat)} :
+    chkCondense V adj comps cadj = true ↔ Closed V adj ∧ IsCondensation V adj comps cadj := chkCondense_iff
+
+/-- the mirror of `condense`'s edge loop is correct on top of any correct decomposition (for all
+inputs): whenever the components it is given are accepted by `chkScc`, its output is a condensation -/
+theorem condense_mirror_spec {V U nodes : List Nat} {adj : Adj} (hV : ∀ v, v ∈ nodes ↔ v ∈ V)
+    (h : chkScc V adj (tarjan U nodes adj) = true) :
+    IsCondensation V adj (condense U nodes adj).1 (condense U nodes adj).2 :=
+  condEdges_spec hV (chkScc_iff.1 h).2
+
+example : condense [0, 1, 2, 3] [0, 1, 2, 3] exAdj = ([[3], [2, 1, 0]], [[], [0]]) := by decide
+example : chkCondense [0, 1, 2, 3] exAdj [[3], [2, 1, 0]] [[], [0]] = true := by decide
+example : IsCondensation [0, 1, 2, 3] exAdj [[3], [2, 1, 0]] [[], [0]] := (chkCondense_correct.1 (by decide)).2
+
+/-! ### Tarjan
+
+-- FULL STATEMENT (not proved):
+-- theorem tarjan_certifies (U nodes : List Nat) (adj : Adj) (hc : Closed U adj) (hs : nodes ⊆ U) :
+--     chkScc (reach adj U nodes) adj (tarjan U nodes adj) = true
+-- (the mirror of `strongly_connected_components` emits, on every input, a decomposition accepted by
+-- the certificate checker).  It is checked per input by the driver: `chkScc` is evaluated on the
+-- mirror's and on the implementation's components on every explored input.
+-/
+
+example : tarjan [0, 1, 2, 3] [0, 1, 2, 3] exAdj = [[3], [2, 1, 0]] := by decide
 
 end Solvor.Graph
